@@ -49,6 +49,11 @@ CLAIMED = {
          "For six schema families (slice / nested-slice / behind-pointer defaults, scalar defaults, catch values, OneOf lists, Contains params, struct/pointer/typed-map inputs, Custom with reference-typed T) every sequence of <=3 (quick) / <=4 (thorough) Parse/Validate calls with absent and present inputs is run with PostTransforms that overwrite and append to their destination. After every call all values handed to builders and all inputs must be deeply unchanged, the destination must not share a backing array with them, and a repeated call must observe what its first occurrence observed.",
          "Callbacks mutate only through the pointer they receive. Known finding D19 (Custom[T] aliases reference-typed input) is listed in known_findings.json.",
          "DESIGN.md section 4 C19"),
+
+ "C12": ("stateless exhaustive exploration of the real code with recording callbacks at every node; invocation log, pointer identity and issues compared with the reference model",
+         "Every node of every skeleton (depth <=3) carries recording tests and PostTransforms; any two units range jointly over configuration x PostTransform configuration {one, none, two, first errors, second errors, first returns *ZogIssue} x input, under every field visit order, in Parse and Validate, with two WithCtxValue keys. The real invocation log (which callback, argument value, pointer vs value, ctx.Get values, order, count) must equal the model's; every pointer argument must be the address of a node of the destination; issues wrapping PostTransform errors must be at the node's path. Custom[int] and Preprocess[string,int] are exercised at top level, as field, as element and behind a pointer with ok / failing / wrongly-typed inputs and ok / erroring functions.",
+         "Model rule for PostTransforms: node exit, declaration order, only while the execution has no issue. Preprocess.Validate is not asserted (different contract).",
+         "DESIGN.md section 4 C12"),
 }
 NOT_YET = "check not built yet in this round (work in progress; see DESIGN.md section 4)"
 def main():
